@@ -54,7 +54,7 @@ def main(argv):
                 with p:
                     graphtage.json.JSONFormatter.DEFAULT_INSTANCE.print(p, d)
                 rec["rc"] = 0
-                rec["lib_out"] = "".join(sink.parts)
+                rec["lib_out"] = sink.getvalue()
             elif entry["kind"] == "quiet":
                 sched.DEFAULT_PRINTER.quiet = bool(entry.get("value"))
                 rec["rc"] = 0
@@ -88,21 +88,12 @@ class _Stdin:
 
 
 class _Sink:
-    def __init__(self):
-        self.parts = []
+    """An in-memory stream like the StringIO a library user would pass."""
 
-    def write(self, s):
-        self.parts.append(s)
-        return len(s)
-
-    def flush(self):
-        pass
-
-    def isatty(self):
-        return False
-
-    def fileno(self):
-        return 77
+    def __new__(cls):
+        import io
+        s = io.StringIO()
+        return s
 
 
 if __name__ == "__main__":
